@@ -19,13 +19,27 @@
 (* Outcome: the prescribed stdout, or a runtime error when the body has a    *)
 (* bad escape (every site evaluates its literal).                            *)
 EXTENDS JqLex
-CONSTANTS MaxLen,      \* bound on the literal body
-          Sites        \* the sites to enumerate (a subset of AllSites)
+CONSTANTS MaxLen,      \* bound on the literal body, alphabet 1 (escapes, quotes, blanks)
+          Sites,       \* the sites to enumerate with alphabet 1 (a subset of AllSites)
+          MaxLen2,     \* bound on the literal body, alphabet 2 (a literal is a BYTE string: escapes next to bytes >= 0x80 / control bytes)
+          Sites2       \* the sites to enumerate with alphabet 2
 
-Alphabet == {"a", "\\", "n", "t", "z", "'", "\"", " ", NL}
+\* Alphabet 2: the literal is written at every site that hands the denoted bytes on unchanged (the harness leaves out
+\* the sites that count or split characters and the regex site; a site that reads the document is used when the
+\* value can be written in a JSON document, i.e. is well-formed UTF-8).  Byte groups: a well-formed 2-, 3- and 4-byte
+\* sequence, a lead byte without continuation, a stray continuation, a byte that never occurs in UTF-8, NUL, DEL --
+\* before, after and around each escape.
+Alphabet(a) == IF a = 1 THEN {"a", "\\", "n", "t", "z", "'", "\"", " ", NL}
+               ELSE {"\\", "t", "n", "C3", "A9", "FF"}
+Bound(a) == IF a = 1 THEN MaxLen ELSE MaxLen2
+SitesOf(a) == IF a = 1 THEN Sites ELSE Sites2
 PrintableStr == " !\"#$%&'()*+,-./0123456789:;<=>?@ABCDEFGHIJKLMNOPQRSTUVWXYZ[\\]^_`abcdefghijklmnopqrstuvwxyz{|}~"
-OtherBytes == ({SubSeq(PrintableStr, i, i) : i \in 1..Len(PrintableStr)} \cup {TAB, CR}) \ Alphabet
-Probes == {<<"x", "\\", b, "y">> : b \in OtherBytes}
+OtherBytes == ({SubSeq(PrintableStr, i, i) : i \in 1..Len(PrintableStr)} \cup {TAB, CR}) \ Alphabet(1)
+ByteGroups == {<<"C3", "A9">>, <<"E2", "82", "AC">>, <<"F0", "9F", "98", "80">>, <<"E9">>, <<"80">>, <<"FF">>, <<"00">>, <<"7F">>}
+EscLetters == {"n", "t", "\\"}
+Probes(a) == IF a = 1 THEN {<<"x", "\\", b, "y">> : b \in OtherBytes}
+             ELSE UNION {{G \o <<"\\", e>>, <<"\\", e>> \o G, G \o <<"\\", e>> \o G} : G \in ByteGroups, e \in EscLetters}
+Min2(n) == IF n < 2 THEN n ELSE 2
 
 \* ---- templates: text, the literal (L), the regex source that matches exactly the value (RE)
 T(str) == [t |-> "txt", s |-> Chars(str)]
@@ -114,10 +128,10 @@ Out(site, val) ==
 Reveals(site) == site \in {"print", "printlist", "assign", "addassign", "concatl", "concatr", "arg", "ret", "elem", "objval", "recvsplit",
                            "printfarg", "printffmt", "forin", "subset", "subnested", "subincr", "subaddassign", "matchres", "grouped"}
 
-VARIABLES site, body, q, done
-Init == /\ site \in Sites /\ body \in SeqsUpTo(Alphabet, 2) \cup Probes /\ q = "'" /\ done = FALSE
-Next == /\ ~done /\ done' = TRUE /\ UNCHANGED site
-        /\ \E s \in (IF Len(body) < 2 \/ body \in Probes THEN {<<>>} ELSE SeqsUpTo(Alphabet, MaxLen - 2)) : body' = body \o s
+VARIABLES site, al, body, q, done
+Init == /\ al \in {1, 2} /\ site \in SitesOf(al) /\ body \in SeqsUpTo(Alphabet(al), Min2(Bound(al))) \cup Probes(al) /\ q = "'" /\ done = FALSE
+Next == /\ ~done /\ done' = TRUE /\ UNCHANGED <<site, al>>
+        /\ \E s \in (IF Len(body) = 2 /\ body[1] \in Alphabet(al) /\ body[2] \in Alphabet(al) THEN SeqsUpTo(Alphabet(al), Bound(al) - 2) ELSE {<<>>}) : body' = body \o s
         \* (every body up to two bytes; the longer ones with at least one backslash: the others denote themselves)
         /\ Len(body') <= 2 \/ \E i \in 1..Len(body') : body'[i] = "\\"
         /\ q' \in {x \in Quotes : \A i \in 1..Len(body') : body'[i] # x}
